@@ -264,7 +264,7 @@ int main(int argc, char **argv) {
             })));
             return c;
         });
-        ok = run_cases(a, ev, "c14-histories", a.n(40000, 600000), 100, gen, run);
+        ok = run_cases(a, ev, "c14-histories", a.n(240000, 1500000), 100, gen, run);
     }
     ev.write(a.out);
     return ok ? 0 : 1;
